@@ -7,6 +7,9 @@ LEVEL = "model_checking"
 
 
 def classify(rec, verdict):
+    if rec["fn"] in ("builder", "clock"):
+        return {"verdict": verdict, "fn": rec["fn"], "k": rec.get("k"), "setters": len(rec.get("setters") or [])}
+
     def ops(e, acc):
         acc.append(e["op"])
         for k in ("a", "b"):
@@ -19,6 +22,12 @@ def classify(rec, verdict):
 
 
 def corrupt(rec, rng):
+    if rec["fn"] == "builder":
+        rec["valid_at"] = not rec["valid_at"]
+        return rec
+    if rec["fn"] == "clock":
+        rec["past_exp_accepted"] = True
+        return rec
     rec["got"] = not rec["got"]
     rec["errc"] = "" if rec["got"] else "claims"
     if rec["fn"] == "unseal":
@@ -63,6 +72,9 @@ def run(out, tier, seed):
     with open(f) as fh:
         for n, l in enumerate(fh):
             rec = json.loads(l)
+            if rec["fn"] in ("builder", "clock"):
+                nt.add((rec["fn"], json.dumps(rec.get("now")), rec.get("k"), json.dumps(rec.get("setters")), rec.get("cfg")))
+                continue
             e = rec["expr"]
             near = any(rec["x"][k] and abs(rec["x"][k][0][0]) <= 1 for k in ("exp", "nbf"))
             if e["op"] in ("and", "slice", "vec", "box", "rc", "arc", "map") or near:
